@@ -380,7 +380,7 @@ Proof.
     { unfold end_from at 1. rewrite runs_end_cons. reflexivity. }
     assert (Hmono : s + l <= end_from (s + l) t) by (rewrite <- I4; lia).
     cbn [run_gaps run_starts]. replace (pos + (s - pos)) with s by lia. rewrite I1.
-    repeat split; unfold run in *.
+    repeat split.
     + destruct first; [left; reflexivity|right; cbn [fst]; lia].
     + exact I3.
     + intros ->. constructor; [cbn [fst]; lia|exact I3].
@@ -450,7 +450,7 @@ Proof.
     assert (Hlu : lenN units * 4 < 2 ^ 64 /\ lenN samples * 64 < 2 ^ 64).
     { pose proof (pack_runs_lengths gaps [] 0 0 0 0 ltac:(cbn [length]; lia)) as [L1 L2]. rewrite Ep in L1, L2.
       cbn [fst snd] in L1, L2. unfold gaps in L1, L2. rewrite run_gaps_length in L1, L2. unfold lenN in *.
-      clear -L1 L2 Hn. unfold run in *. lia. }
+      clear -L1 L2 Hn. lia. }
     destruct Hlu as [Hlu Hls].
     rewrite !file_ok_int; try reflexivity; try lia. nia.
 Qed.
